@@ -107,6 +107,53 @@ def interrupted_case(args):
         sc.close()
 
 
+def tagged_rerun_case(args):
+    """re-run in place of a workflow in which an out-port is fanned out to a tagging component (MapToTags) and, directly, to a
+    process whose default output name depends on the tags it sees: the second run executes no command and changes no file"""
+    seed, i = args
+    rng = random.Random(seed * 15485917 + i)
+    hx = t3.hx
+    sp = t3.Spec(maxtasks=rng.randint(1, 3), bufsize=rng.choice([1, 2, 128]))
+    L = rng.randint(1, 3)
+    paths = ["t%d.txt" % j for j in range(L)]
+    for p in paths:
+        sp.files[p] = p + "\n"
+    s = sp.src("src", paths)
+    make = sp.proc(t3.Proc("make", kind="cattok", ins=[("a", [(s, "out")])], outs=[("o", "{i:a}.made")]))
+    tg = sp.raw("COMP maptags %s %s %d %s" % (hx("tagger"), hx("sample"), make, hx("o")))
+    proc = sp.proc(t3.Proc("proc", kind="cat", ins=[("a", [(tg, "out")])], outs=[("o", "{i:a}.proc")]))
+    # merge reads the tagged branch and, directly, the original out-port; its output name is the default one (tags included)
+    # or is built from the tag explicitly
+    sp.proc(t3.Proc("merge", kind="cat", ins=[("x", [(proc, "o")]), ("y", [(make, "o")])],
+                    outs=[("o", rng.choice([None, "{i:y}.{t:sample}.merged"]))]))
+    sc = t3.Scratch()
+    try:
+        sc.plant(sp.files)
+        r1 = t3.run_impl(sc, sp)
+        problems = []
+        if r1["rc"] != 0 or not r1["returned"]:
+            problems.append(("unexpected-failure", r1["stderr"][-200:]))
+        else:
+            before = {p: (v[2], v[3], v[1]) for p, v in r1["fs"].items() if v[0] == "f" and not t3.IGNORED.match(p) and not p.endswith(".audit.json")}
+            r2 = t3.run_impl(sc, sp)
+            if r2["rc"] != 0 or not r2["returned"]:
+                problems.append(("rerun-fails", "re-running the completed workflow exits %s: %s" % (r2["rc"], r2["stderr"][-200:])))
+            ran = t3.started_keys(r2["trace"])
+            if ran:
+                problems.append(("rerun-executes", "re-running a completed workflow executed %s" % ran[:3]))
+            after = {p: (v[2], v[3], v[1]) for p, v in r2["fs"].items() if v[0] == "f" and not t3.IGNORED.match(p) and not p.endswith(".audit.json")}
+            new = sorted(set(after) - set(before))
+            if new:
+                problems.append(("rerun-creates", "re-running a completed workflow created %s" % new[:3]))
+            ch = [p for p in before if before[p] != after.get(p)]
+            if ch:
+                problems.append(("rerun-modifies", "re-running a completed workflow changed %s" % ch[:3]))
+        return {"spec": sp.text(), "bufsize": sp.bufsize, "problems": problems[:3], "ntasks": 3 * L, "nskip": 3 * L, "rc": r1["rc"], "stderr": r1["stderr"][-200:],
+                "yield": None, "wall": r1["wall"], "gofunc": 0}
+    finally:
+        sc.close()
+
+
 def run(rep, tier, seed):
     proved = vlib.prove(rep, MODULE, THEOREMS)
     ok, msg = vlib.build_ocaml()
@@ -115,10 +162,11 @@ def run(rep, tier, seed):
     n = 100 if tier == "quick" else 2000
     results = [r for r in t3.run_many(case, [(seed, i) for i in range(n)]) if r]
     results += [r for r in t3.run_many(interrupted_case, [(seed, i) for i in range(n // 4)]) if r]
+    results += [r for r in t3.run_many(tagged_rerun_case, [(seed, i) for i in range(n // 10)]) if r]
     t3.report_t3(rep, MODULE, proved, results, "T3 planted outputs / re-run")
     rep.cov["evaluations"] = len(results) * 2
     rep.cov["distinct_nontrivial"] = len({r["spec"] for r in results if r["nskip"] >= 1})
-    rep.cov["rule"] = "random workflows (shell and Go-function processes); the outputs of a random subset of tasks are pre-created with arbitrary bytes; run on the real library: file set and bytes equal the model's prediction computed from the planted bytes, no command of a skipped task in the trace, (inode, mtime-ns, bytes) of planted files unchanged; then the completed workflow is run again in place: no command, no file changed; non-trivial = at least one task skipped"
+    rep.cov["rule"] = "random workflows (shell and Go-function processes); the outputs of a random subset of tasks are pre-created with arbitrary bytes; run on the real library: file set and bytes equal the model's prediction computed from the planted bytes, no command of a skipped task in the trace, (inode, mtime-ns, bytes) of planted files unchanged; then the completed workflow is run again in place: no command, no file changed; workflows in which a fanned-out port feeds a tagging component and a process whose output name depends on the tags are run twice in place (no command, no new or changed file in the second run); non-trivial = at least one task skipped"
     rep.cov["samples"] = [results[0]["spec"]]
     rep.notes["input_distribution"] = {"runs": len(results), "tasks": sum(r["ntasks"] for r in results), "skipped_tasks": sum(r["nskip"] for r in results),
                                        "gofunc_processes": sum(r["gofunc"] for r in results)}
